@@ -1,17 +1,19 @@
 // C04 — matrix operations match their definitions for every shape and storage layout
 // VF-VARIANT: san
-// VF-RULE: E2, one library call per case. Lattice spaces: every requested shape pair (rA,cA,rB,cB) in 0..N x every storage class (RowMatrix/ColMatrix/LinearMatrix) of each operand and of the result x result pre-state (unsized / too small / too large / right size, all garbage-filled) x entry pattern (injective integer, sign-alternating, zero-sprinkled, dyadic k/4) x per-routine parameter (exponent, vector-length offset, imaginary-part shape offset, scalar). Tiny spaces: every entry assignment over {-1,0,2} for all shape pairs up to 2x2. lap: every cost matrix of the stated alphabets plus structured families, in each storage class, against all n! permutations. A case is non-trivial when the operands are conformable and the result has at least one entry (lap: n >= 2); non-conformable cases are counted under 'raised-DimensionException'.
-// VF-BOUND: shapes 0..5 (quick) / 0..7 (thorough) instead of "all shapes up to 7x7" in quick; entries from four fixed patterns + exhaustive {-1,0,2} up to 2x2 instead of all reals; lap: all n<=3 over {0,1,2} and {-1.5,0.25,3}, n=4 over {0,1} (thorough also n=3 over {0,1,2,3}), structured families n=5..6 (thorough ..7) instead of all cost matrices up to 7x7
-// VF-LEVEL: bounded-exhaustive differential check of the real MatrixTools code under ASan/UBSan/libstdc++ assertions against exact dyadic-rational definitions; every case of the stated finite spaces is executed
-// VF-ASSUME: the exact rational reference in harness/C04_ref.hpp implements the textbook definitions;; conformability and expected output shape are evaluated on the dimensions the operand objects REPORT (RowMatrix cannot hold 0xn, ColMatrix cannot hold nx0);; entries outside the dyadic alphabets behave like those inside (rounding of "the same finite sum" is not exercised except in covar, where a derived bound is used)
+// VF-RULE: E2, one MatrixTools call per case, result compared entry by entry with an exact dyadic-rational reference. Per routine, over ALL requested shape pairs (rA,cA,rB,cB) in 0..N: space ":cube" = every storage class (RowMatrix/ColMatrix/LinearMatrix) of every operand and of the result (27 combinations; x3 class rotations of the imaginary parts) x result pre-state (unsized, too large+garbage; thorough also too small, right size+garbage) on the injective integer pattern; space ":variants" = every result pre-state x every entry pattern (injective integer, sign-alternating, zero-sprinkled, dyadic k/4) x every routine parameter (exponent, scalar, vector length n-2..n+1, imaginary part one row/column off) under the three mixed storage assignments; small routines have the full product in one space ":full". Tiny spaces: every entry assignment over {-1,0,2} for every shape pair up to 2x2. directSum(list): every list of <=2 shapes in 0..N and of 3 shapes in 0..3 (thorough 0..4). lap: every cost matrix of the stated alphabets plus structured families, in each storage class, against all n! permutations and the dual certificate. A case is non-trivial when the operands are conformable and the result has at least one entry (lap: n >= 2); non-conformable cases are counted under 'raised-DimensionException'.
+// VF-BOUND: shapes 0..5 (quick) / 0..7 (thorough); entries from four fixed patterns plus exhaustive {-1,0,2} up to 2x2 instead of all integer/real entries; storage cube crossed with 2 (quick) / 4 (thorough) pre-states on one pattern, the other patterns and parameters under 3 mixed storage assignments; lap: all n<=3 over {0,1,2} and {-3/2,1/4,3}, n=4 over {0,1}, thorough also n=3 over {0,1,2,3} and {-3/2,1/4,3,5}; families n=5..6 (thorough ..7): all zero-cost permutations, 12 closed forms, all one-cheap-entry-per-row matrices (n<=5, thorough n<=6) instead of all cost matrices up to 7x7
+// VF-LEVEL: bounded-exhaustive differential check of the real MatrixTools code under ASan/UBSan/libstdc++ assertions against exact dyadic-rational definitions; every case of the stated finite spaces is executed; lap optimality decided by brute force over all permutations plus dual feasibility/tightness/objective
+// VF-ASSUME: the exact rational reference in harness/C04_ref.hpp implements the textbook definitions;; conformability and expected output shape are evaluated on the dimensions the operand objects REPORT (RowMatrix cannot hold 0xn, ColMatrix cannot hold nx0);; entries outside the dyadic alphabets behave like those inside (rounding of "the same finite sum" is not exercised except in covar, where a derived bound is used);; a libstdc++ assertion failure inside an armed library call is contained in-process (own definition of std::__glibcxx_assert_fail + longjmp) and reported with the signature the supervisor would give to the abort
 // VF-TECHNIQUE: exhaustive enumeration with exact reference model; brute-force optimality and dual certificate for lap
-// VF-BUDGET_QUICK: 200
+// VF-BUDGET_QUICK: 400
+// VF-BUDGET_THOROUGH: 3000
 #include "vf.hpp"
 #include "C04_ref.hpp"
 #include <Bpp/Numeric/Matrix/Matrix.h>
 #include <Bpp/Numeric/Matrix/MatrixTools.h>
 #include <Bpp/Numeric/VectorExceptions.h>
 #include <memory>
+#include <functional>
 #include <csetjmp>
 #include <cstdio>
 #include <type_traits>
@@ -103,8 +105,9 @@ struct Ctx {
   vf::Case& c;
   int rA = 0, cA = 0, rB = 0, cB = 0, clsA = 0, clsB = 0, clsO = 0, rot = 0, pre = 0, pat = 0, extra = 0;
   bool tiny = false; std::vector<int> entA, entB;
-  std::string more;   // routine-specific part of the description
+  std::function<std::string()> moreFn;   // routine-specific part of the description (lazy)
   std::string siteName;
+  bool wantSample = false;
   Ctx(vf::Case& c_) : c(c_) {}
   void site(const char* s) { siteName = s; c.site(s); }
   void crashed(const std::string& d) { c.fail("crash|" + siteName + "|glibcxx-assertion", d + ": the call dies on a libstdc++ assertion (out-of-range index): " + g_assertMsg); }
@@ -130,11 +133,16 @@ struct Ctx {
     std::string s;
     if (A) s += std::string("A=") + CN[A->cls] + "Matrix " + str(rA) + "x" + str(cA) + "(reports " + str(A->ref.r) + "x" + str(A->ref.c) + ")" + mstr(A->ref) + " ";
     if (B) s += std::string("B=") + CN[B->cls] + "Matrix " + str(rB) + "x" + str(cB) + "(reports " + str(B->ref.r) + "x" + str(B->ref.c) + ")" + mstr(B->ref) + " ";
-    s += std::string("O=") + CN[clsO] + "Matrix pre-state=" + PRE[pre] + (tiny ? " entries{-1,0,2}" : " pattern=" + str(pat)) + (more.empty() ? "" : " " + more);
+    s += std::string("O=") + CN[clsO] + "Matrix pre-state=" + PRE[pre] + (tiny ? " entries{-1,0,2}" : " pattern=" + str(pat)) + (moreFn ? " " + moreFn() : std::string());
     return s;
   }
   // verdict on raise / no raise; returns true when the result is to be compared
-  bool judge(const std::string& op, bool conformable, Res r, const std::string& d, const char* ncClause = "nonconformable-accepted") {
+  typedef std::function<std::string()> DescFn;
+  bool judge(const std::string& op, bool conformable, Res r, const DescFn& dfn, const char* ncClause = "nonconformable-accepted") {
+    if (wantSample) c.sample(op + ": " + dfn() + " -> " + (r == OK_ ? "returned" : r == DIMEX ? "DimensionException" : "other outcome") + (conformable ? " (conformable)" : " (non-conformable)"));
+    if (r == OK_ && conformable) { c.tag("computed"); return true; }
+    if (r == DIMEX && !conformable) { c.tag("raised-DimensionException"); return false; }
+    std::string d = dfn();
     if (r == ASSERTFAIL) { crashed(d); return false; }
     if (!conformable) {
       if (r == DIMEX) { c.tag("raised-DimensionException"); return false; }
@@ -147,15 +155,15 @@ struct Ctx {
     else c.fail(op + "|foreign-exception", d + ": conformable operands raised an exception");
     return false;
   }
-  bool cmp(const std::string& op, const char* what, const MD& got, const RM& want, int cls, const std::string& d) {
+  bool cmp(const std::string& op, const char* what, const MD& got, const RM& want, int cls, const DescFn& d) {
     size_t er = want.r, ec = want.c; rep(cls, er, ec);
     if (got.getNumberOfRows() != er || got.getNumberOfColumns() != ec) {
-      c.fail(op + "|dims" + what, d + ": output reports " + str(got.getNumberOfRows()) + "x" + str(got.getNumberOfColumns()) + ", definition gives " + str(er) + "x" + str(ec));
+      c.fail(op + "|dims" + what, d() + ": output reports " + str(got.getNumberOfRows()) + "x" + str(got.getNumberOfColumns()) + ", definition gives " + str(er) + "x" + str(ec));
       return false;
     }
     for (size_t i = 0; i < er; ++i) for (size_t j = 0; j < ec; ++j) {
       double g = got(i, j), w = want(i, j).d();
-      if (!(g == w)) { c.fail(op + "|value" + what, d + ": entry (" + str(i) + "," + str(j) + ") is " + vf::num(g) + ", definition gives " + vf::num(w)); return false; }
+      if (!(g == w)) { c.fail(op + "|value" + what, d() + ": entry (" + str(i) + "," + str(j) + ") is " + vf::num(g) + ", definition gives " + vf::num(w)); return false; }
     }
     if (er * ec > 0) c.nontrivial();
     return true;
@@ -171,15 +179,15 @@ static void op_copy(Ctx& x) {
   Opd A = x.opd(0, x.clsA, x.rA, x.cA); MP O = mkOut(x.clsO, x.pre, A.ref.r, A.ref.c);
   x.site(op);
   Res r = call([&] { with2(*A.m, *O, [&](auto& a, auto& o) { MatrixTools::copy(a, o); }); });
-  std::string d = x.desc(&A);
+  auto d = [&] { return x.desc(&A); };
   if (x.judge(op, true, r, d)) x.cmp(op, "", *O, A.ref, x.clsO, d);
 }
 static void op_getId(Ctx& x) {
   const char* op = "getId(n,O)";
-  size_t n = (size_t)x.extra; MP O = mkOut(x.clsO, x.pre, n, n); x.more = "n=" + str(n);
+  size_t n = (size_t)x.extra; MP O = mkOut(x.clsO, x.pre, n, n); x.moreFn = [&]() -> std::string { return "n=" + str(n); };
   x.site(op);
   Res r = call([&] { with1(*O, [&](auto& o) { MatrixTools::getId(n, o); }); });
-  std::string d = x.desc();
+  auto d = [&] { return x.desc(); };
   if (x.judge(op, true, r, d)) x.cmp(op, "", *O, rid(n), x.clsO, d);
 }
 static void op_diagVec(Ctx& x) {   // diag(vector) -> matrix and diag(scalar, n) -> matrix
@@ -187,31 +195,31 @@ static void op_diagVec(Ctx& x) {   // diag(vector) -> matrix and diag(scalar, n)
   const char* op = scalar ? "diag(x,n,O)" : "diag(D,O)";
   std::vector<double> D; RV rD = x.vec(0, n, D);
   if (scalar) for (size_t k = 0; k < n; ++k) { rD[k] = patVec(0, x.pat, 1); }
-  MP O = mkOut(x.clsO, x.pre, n, n); x.more = "n=" + str(n);
+  MP O = mkOut(x.clsO, x.pre, n, n); x.moreFn = [&]() -> std::string { return "n=" + str(n); };
   x.site(op);
   Res r = call([&] { if (scalar) MatrixTools::diag(patVec(0, x.pat, 1).d(), n, *O); else MatrixTools::diag(D, *O); });
-  std::string d = x.desc();
+  auto d = [&] { return x.desc(); };
   if (x.judge(op, true, r, d)) x.cmp(op, "", *O, rdiag(rD), x.clsO, d);
 }
 static void op_diagOf(Ctx& x) {    // diag(matrix) -> vector; square only
   const char* op = "diag(M,v)";
   Opd A = x.opd(0, x.clsA, x.rA, x.cA);
   std::vector<double> out; if (x.pre) out.assign(9, -7777.0);
-  x.more = x.pre ? "v pre-sized 9" : "v empty";
+  x.moreFn = [&]() -> std::string { return x.pre ? "v pre-sized 9" : "v empty"; };
   x.site(op);
   Res r = call([&] { MatrixTools::diag(*A.m, out); });
-  std::string d = x.desc(&A);
+  auto d = [&] { return x.desc(&A); };
   if (!x.judge(op, A.ref.r == A.ref.c, r, d)) return;
-  if (out.size() != A.ref.r) { x.c.fail(std::string(op) + "|dims", d + ": vector has length " + str(out.size())); return; }
-  for (size_t i = 0; i < out.size(); ++i) if (!(out[i] == A.ref(i, i).d())) { x.c.fail(std::string(op) + "|value", d + ": element " + str(i) + " is " + vf::num(out[i])); return; }
+  if (out.size() != A.ref.r) { x.c.fail(std::string(op) + "|dims", d() + ": vector has length " + str(out.size())); return; }
+  for (size_t i = 0; i < out.size(); ++i) if (!(out[i] == A.ref(i, i).d())) { x.c.fail(std::string(op) + "|value", d() + ": element " + str(i) + " is " + vf::num(out[i])); return; }
   if (!out.empty()) x.c.nontrivial();
 }
 static void op_scale(Ctx& x) {
   const char* op = "scale(A,a,b)";
   static const Dy as[5] = {Dy(1), Dy(-2), Dy(1), Dy(3), Dy(1, 1)}, bs[5] = {Dy(0), Dy(0), Dy(3), Dy(-1), Dy(1, 2)};
   Dy a = as[x.extra], b = bs[x.extra];
-  Opd A = x.opd(0, x.clsA, x.rA, x.cA); x.more = "a=" + dstr(a) + " b=" + dstr(b);
-  std::string d = x.desc(&A);
+  Opd A = x.opd(0, x.clsA, x.rA, x.cA); x.moreFn = [&]() -> std::string { return "a=" + dstr(a) + " b=" + dstr(b); };
+  auto d = [&] { return x.desc(&A); };
   x.site(op);
   Res r = call([&] { with1(*A.m, [&](auto& m) { if (b.n == 0) MatrixTools::scale(m, a.d()); else MatrixTools::scale(m, a.d(), b.d()); }); });
   if (!x.judge(op, true, r, d)) return;
@@ -224,7 +232,7 @@ static void op_mult(Ctx& x) {
   MP O = mkOut(x.clsO, x.pre, A.ref.r, B.ref.c);
   x.site(op);
   Res r = call([&] { MatrixTools::mult(*A.m, *B.m, *O); });
-  std::string d = x.desc(&A, &B);
+  auto d = [&] { return x.desc(&A, &B); };
   if (x.judge(op, A.ref.c == B.ref.r, r, d)) x.cmp(op, "", *O, rmul(A.ref, B.ref), x.clsO, d);
 }
 // shape of an imaginary part for offset mode k (0: same as the real part)
@@ -247,11 +255,11 @@ static void op_multC(Ctx& x) {     // real/imaginary pairs
   Opd iA = x.opd(2, (x.clsA + x.rot) % 3, riA, ciA), iB = x.opd(3, (x.clsB + x.rot) % 3, riB, ciB);
   int clsiO = (x.clsO + x.rot) % 3;
   MP O = mkOut(x.clsO, x.pre, A.ref.r, B.ref.c), iO = mkOut(clsiO, x.pre, A.ref.r, B.ref.c);
-  x.more = std::string("iA=") + CN[iA.cls] + " reports " + str(iA.ref.r) + "x" + str(iA.ref.c) + " iB=" + CN[iB.cls] + " reports " + str(iB.ref.r) + "x" + str(iB.ref.c) + " iO=" + CN[clsiO];
+  x.moreFn = [&]() -> std::string { return std::string("iA=") + CN[iA.cls] + " reports " + str(iA.ref.r) + "x" + str(iA.ref.c) + " iB=" + CN[iB.cls] + " reports " + str(iB.ref.r) + "x" + str(iB.ref.c) + " iO=" + CN[clsiO]; };
   bool imagOK = sameShape(A.ref, iA.ref) && sameShape(B.ref, iB.ref), inner = A.ref.c == B.ref.r;
   x.site(imagOK ? op : "mult(A,iA,B,iB,O,iO)[imaginary part of different shape]");
   Res r = call([&] { MatrixTools::mult(*A.m, *iA.m, *B.m, *iB.m, *O, *iO); });
-  std::string d = x.desc(&A, &B);
+  auto d = [&] { return x.desc(&A, &B); };
   if (!x.judge(op, inner && imagOK, r, d, inner ? "nonconformable-imaginary-part-accepted" : "nonconformable-accepted")) return;
   CM a{A.ref, iA.ref}, b{B.ref, iB.ref}; CM w = cmul(a, b);
   x.cmp(op, "", *O, w.re, x.clsO, d); x.cmp(op, "-imaginary", *iO, w.im, clsiO, d);
@@ -262,11 +270,11 @@ static size_t offLen(size_t n, int k) {   // k: 0 -> n, 1 -> n+1, 2 -> n-1 (n+2 
 static void op_multD(Ctx& x) {
   const char* op = "mult(A,D,B,O)";
   Opd A = x.opd(0, x.clsA, x.rA, x.cA), B = x.opd(1, x.clsB, x.rB, x.cB);
-  std::vector<double> D; RV rD = x.vec(0, offLen(A.ref.c, x.extra), D); x.more = "|D|=" + str(D.size());
+  std::vector<double> D; RV rD = x.vec(0, offLen(A.ref.c, x.extra), D); x.moreFn = [&]() -> std::string { return "|D|=" + str(D.size()); };
   MP O = mkOut(x.clsO, x.pre, A.ref.r, B.ref.c);
   x.site(op);
   Res r = call([&] { MatrixTools::mult(*A.m, D, *B.m, *O); });
-  std::string d = x.desc(&A, &B);
+  auto d = [&] { return x.desc(&A, &B); };
   if (x.judge(op, A.ref.c == B.ref.r && D.size() == A.ref.c, r, d)) x.cmp(op, "", *O, rmul(rmul(A.ref, rdiag(rD)), B.ref), x.clsO, d);
 }
 static void op_multCD(Ctx& x) {    // real/imaginary pairs with complex diagonal
@@ -279,11 +287,11 @@ static void op_multCD(Ctx& x) {    // real/imaginary pairs with complex diagonal
   RV rD = x.vec(0, offLen(n, v == 1 ? 1 : 0), D), riD = x.vec(1, offLen(n, v == 2 ? 1 : (v == 3 ? 2 : 0)), iD);
   int clsiO = (x.clsO + x.rot) % 3;
   MP O = mkOut(x.clsO, x.pre, A.ref.r, B.ref.c), iO = mkOut(clsiO, x.pre, A.ref.r, B.ref.c);
-  x.more = std::string("iA=") + CN[iA.cls] + " reports " + str(iA.ref.r) + "x" + str(iA.ref.c) + " iB=" + CN[iB.cls] + " reports " + str(iB.ref.r) + "x" + str(iB.ref.c) + " |D|=" + str(D.size()) + " |iD|=" + str(iD.size()) + " iO=" + CN[clsiO];
+  x.moreFn = [&]() -> std::string { return std::string("iA=") + CN[iA.cls] + " reports " + str(iA.ref.r) + "x" + str(iA.ref.c) + " iB=" + CN[iB.cls] + " reports " + str(iB.ref.r) + "x" + str(iB.ref.c) + " |D|=" + str(D.size()) + " |iD|=" + str(iD.size()) + " iO=" + CN[clsiO]; };
   bool imagOK = sameShape(A.ref, iA.ref) && sameShape(B.ref, iB.ref) && iD.size() == D.size(), realOK = A.ref.c == B.ref.r && D.size() == n;
   x.site(imagOK ? op : "mult(A,iA,D,iD,B,iB,O,iO)[imaginary part of different shape]");
   Res r = call([&] { MatrixTools::mult(*A.m, *iA.m, D, iD, *B.m, *iB.m, *O, *iO); });
-  std::string d = x.desc(&A, &B);
+  auto d = [&] { return x.desc(&A, &B); };
   if (!x.judge(op, realOK && imagOK, r, d, realOK ? "nonconformable-imaginary-part-accepted" : "nonconformable-accepted")) return;
   CM a{A.ref, iA.ref}, dm{rdiag(rD), rdiag(riD)}, b{B.ref, iB.ref}; CM w = cmul(cmul(a, dm), b);
   x.cmp(op, "", *O, w.re, x.clsO, d); x.cmp(op, "-imaginary", *iO, w.im, clsiO, d);
@@ -300,11 +308,11 @@ static void op_multT(Ctx& x) {     // tridiagonal middle factor
   // n == 0: there is no U of length -1, so every operand set is non-conformable; use empty U, L
   bool conf = exists && A.ref.c == B.ref.r && lD == n && lU == n - 1 && lL == n - 1;
   std::vector<double> D, U, L; RV rD = x.vec(0, (size_t)std::max(lD, 0L), D), rU = x.vec(1, (size_t)std::max(lU, 0L), U), rL = x.vec(2, (size_t)std::max(lL, 0L), L);
-  x.more = "|D|=" + str(D.size()) + " |U|=" + str(U.size()) + " |L|=" + str(L.size()) + " D=" + vf::vstr(D) + " U=" + vf::vstr(U) + " L=" + vf::vstr(L);
+  x.moreFn = [&]() -> std::string { return "|D|=" + str(D.size()) + " |U|=" + str(U.size()) + " |L|=" + str(L.size()) + " D=" + vf::vstr(D) + " U=" + vf::vstr(U) + " L=" + vf::vstr(L); };
   MP O = mkOut(x.clsO, x.pre, A.ref.r, B.ref.c);
   x.site(op);
   Res r = call([&] { MatrixTools::mult(*A.m, D, U, L, *B.m, *O); });
-  std::string d = x.desc(&A, &B);
+  auto d = [&] { return x.desc(&A, &B); };
   if (x.judge(op, conf, r, d)) x.cmp(op, "", *O, rmul(rmul(A.ref, rtridiag(rD, rU, rL)), B.ref), x.clsO, d);
 }
 static void op_add(Ctx& x) {
@@ -312,17 +320,17 @@ static void op_add(Ctx& x) {
   Opd A = x.opd(0, x.clsA, x.rA, x.cA), B = x.opd(1, x.clsB, x.rB, x.cB);
   x.site(op);
   Res r = call([&] { with2(*A.m, *B.m, [&](auto& a, auto& b) { MatrixTools::add(a, b); }); });
-  std::string d = x.desc(&A, &B);
+  auto d = [&] { return x.desc(&A, &B); };
   if (x.judge(op, sameShape(A.ref, B.ref), r, d)) x.cmp(op, "", *A.m, radd(A.ref, B.ref), A.cls, d);
 }
 static void op_addx(Ctx& x) {
   const char* op = "add(A,x,B)";
   static const Dy xs[3] = {Dy(1), Dy(-3), Dy(1, 2)};
-  Dy xv = xs[x.extra]; double xd = xv.d(); x.more = "x=" + dstr(xv);
+  Dy xv = xs[x.extra]; double xd = xv.d(); x.moreFn = [&]() -> std::string { return "x=" + dstr(xv); };
   Opd A = x.opd(0, x.clsA, x.rA, x.cA), B = x.opd(1, x.clsB, x.rB, x.cB);
   x.site(op);
   Res r = call([&] { with2(*A.m, *B.m, [&](auto& a, auto& b) { MatrixTools::add(a, xd, b); }); });
-  std::string d = x.desc(&A, &B);
+  auto d = [&] { return x.desc(&A, &B); };
   if (x.judge(op, sameShape(A.ref, B.ref), r, d)) x.cmp(op, "", *A.m, radd(A.ref, B.ref, xv), A.cls, d);
 }
 static void op_transpose(Ctx& x) {
@@ -330,16 +338,16 @@ static void op_transpose(Ctx& x) {
   Opd A = x.opd(0, x.clsA, x.rA, x.cA); MP O = mkOut(x.clsO, x.pre, A.ref.c, A.ref.r);
   x.site(op);
   Res r = call([&] { with2(*A.m, *O, [&](auto& a, auto& o) { MatrixTools::transpose(a, o); }); });
-  std::string d = x.desc(&A);
+  auto d = [&] { return x.desc(&A); };
   if (x.judge(op, true, r, d)) x.cmp(op, "", *O, rtrans(A.ref), x.clsO, d);
 }
 static void op_pow(Ctx& x) {       // template on ONE matrix class: A and O share it
   const char* op = "pow(A,p,O)";
-  size_t p = (size_t)x.extra; x.more = "p=" + str(p); x.clsO = x.clsA;
+  size_t p = (size_t)x.extra; x.moreFn = [&]() -> std::string { return "p=" + str(p); }; x.clsO = x.clsA;
   Opd A = x.opd(0, x.clsA, x.rA, x.cA); MP O = mkOut(x.clsA, x.pre, A.ref.r, A.ref.r);
   x.site(op);
   Res r = call([&] { with1(*A.m, [&](auto& a) { typedef typename std::decay<decltype(a)>::type T; MatrixTools::pow(a, p, dynamic_cast<T&>(*O)); }); });
-  std::string d = x.desc(&A);
+  auto d = [&] { return x.desc(&A); };
   if (x.judge(op, A.ref.r == A.ref.c, r, d)) x.cmp(op, "", *O, rpow(A.ref, p), x.clsA, d);
 }
 static void op_taylor(Ctx& x) {    // vO is a vector of RowMatrix; A RowMatrix (deduced) or any class through the abstract interface
@@ -349,13 +357,14 @@ static void op_taylor(Ctx& x) {    // vO is a vector of RowMatrix; A RowMatrix (
   std::vector<RowMatrix<double>> vO;
   if (x.pre == 1) { vO.resize(1, RowMatrix<double>(2, 3)); garbage(vO[0]); }
   if (x.pre == 2) { vO.resize(p + 3, RowMatrix<double>(A.ref.r + 1, A.ref.r + 2)); for (auto& m : vO) garbage(m); }
-  x.more = "p=" + str(p) + " vO pre-state: " + (x.pre == 0 ? "empty" : x.pre == 1 ? "one 2x3 matrix" : "p+3 larger matrices"); x.pre = 0;
+  int vpre = x.pre; x.pre = 0;
+  x.moreFn = [&]() -> std::string { return "p=" + str(p) + " vO pre-state: " + (vpre == 0 ? "empty" : vpre == 1 ? "one 2x3 matrix" : "p+3 larger matrices"); };
   x.site(op);
   Res r = call([&] { if (x.clsA == 0) MatrixTools::Taylor(dynamic_cast<RowMatrix<double>&>(*A.m), p, vO); else MatrixTools::Taylor<MD, double>(*A.m, p, vO); });
-  std::string d = x.desc(&A);
+  auto d = [&] { return x.desc(&A); };
   if (!x.judge(op, A.ref.r == A.ref.c, r, d)) return;
-  if (vO.size() != p + 1) { x.c.fail(std::string(op) + "|dims", d + ": vO has " + str(vO.size()) + " matrices, p+1 = " + str(p + 1)); return; }
-  for (size_t k = 0; k <= p; ++k) if (!x.cmp(op, "", vO[k], rpow(A.ref, k), 0, d + " (power " + str(k) + ")")) return;
+  if (vO.size() != p + 1) { x.c.fail(std::string(op) + "|dims", d() + ": vO has " + str(vO.size()) + " matrices, p+1 = " + str(p + 1)); return; }
+  for (size_t k = 0; k <= p; ++k) if (!x.cmp(op, "", vO[k], rpow(A.ref, k), 0, [&] { return d() + " (power " + str(k) + ")"; })) return;
 }
 static void op_kron(Ctx& x) {
   const char* op = "kroneckerMult(A,B,O)";
@@ -363,29 +372,29 @@ static void op_kron(Ctx& x) {
   bool check = x.pre != 4; MP O = mkOut(x.clsO, check ? x.pre : 3, A.ref.r * B.ref.r, A.ref.c * B.ref.c);
   x.site(op);
   Res r = call([&] { if (check) MatrixTools::kroneckerMult(*A.m, *B.m, *O); else MatrixTools::kroneckerMult(*A.m, *B.m, *O, false); });
-  std::string d = x.desc(&A, &B);
+  auto d = [&] { return x.desc(&A, &B); };
   if (x.judge(op, true, r, d)) x.cmp(op, "", *O, rkron(A.ref, B.ref), x.clsO, d);
 }
 static void op_kronDiag(Ctx& x) {
   const char* op = "kroneckerMult(A,dim,v,O)";
-  size_t dim = (size_t)(x.extra / 2); Dy v = (x.extra % 2) ? Dy(-1, 1) : Dy(3); x.more = "dim=" + str(dim) + " v=" + dstr(v);
+  size_t dim = (size_t)(x.extra / 2); Dy v = (x.extra % 2) ? Dy(-1, 1) : Dy(3); x.moreFn = [&]() -> std::string { return "dim=" + str(dim) + " v=" + dstr(v); };
   Opd A = x.opd(0, x.clsA, x.rA, x.cA);
   bool check = x.pre != 4; MP O = mkOut(x.clsO, check ? x.pre : 3, A.ref.r * dim, A.ref.c * dim);
   double vd = v.d();
   x.site(op);
   Res r = call([&] { if (check) MatrixTools::kroneckerMult(*A.m, dim, vd, *O); else MatrixTools::kroneckerMult(*A.m, dim, vd, *O, false); });
-  std::string d = x.desc(&A);
+  auto d = [&] { return x.desc(&A); };
   if (x.judge(op, true, r, d)) x.cmp(op, "", *O, rkron(A.ref, rdiag(RV(dim, v))), x.clsO, d);
 }
 static void op_kronRepl(Ctx& x) {
   const char* op = "kroneckerMult(A,B,dA,dB,O)";
-  Dy dA = x.extra ? Dy(0) : Dy(7), dB = x.extra ? Dy(1, 2) : Dy(-5); x.more = "dA=" + dstr(dA) + " dB=" + dstr(dB);
+  Dy dA = x.extra ? Dy(0) : Dy(7), dB = x.extra ? Dy(1, 2) : Dy(-5); x.moreFn = [&]() -> std::string { return "dA=" + dstr(dA) + " dB=" + dstr(dB); };
   Opd A = x.opd(0, x.clsA, x.rA, x.cA), B = x.opd(1, x.clsB, x.rB, x.cB);
   bool check = x.pre != 4; MP O = mkOut(x.clsO, check ? x.pre : 3, A.ref.r * B.ref.r, A.ref.c * B.ref.c);
   double a = dA.d(), b = dB.d();
   x.site(op);
   Res r = call([&] { if (check) MatrixTools::kroneckerMult(*A.m, *B.m, a, b, *O); else MatrixTools::kroneckerMult(*A.m, *B.m, a, b, *O, false); });
-  std::string d = x.desc(&A, &B);
+  auto d = [&] { return x.desc(&A, &B); };
   if (x.judge(op, true, r, d)) x.cmp(op, "", *O, rkron(rdiagrepl(A.ref, dA), rdiagrepl(B.ref, dB)), x.clsO, d);
 }
 static void op_had(Ctx& x) {
@@ -394,7 +403,7 @@ static void op_had(Ctx& x) {
   MP O = mkOut(x.clsO, x.pre, A.ref.r, A.ref.c);
   x.site(op);
   Res r = call([&] { MatrixTools::hadamardMult(*A.m, *B.m, *O); });
-  std::string d = x.desc(&A, &B);
+  auto d = [&] { return x.desc(&A, &B); };
   if (x.judge(op, sameShape(A.ref, B.ref), r, d)) x.cmp(op, "", *O, rhad(A.ref, B.ref), x.clsO, d);
 }
 static void op_hadC(Ctx& x) {
@@ -405,11 +414,11 @@ static void op_hadC(Ctx& x) {
   Opd iA = x.opd(2, (x.clsA + x.rot) % 3, riA, ciA), iB = x.opd(3, (x.clsB + x.rot) % 3, riB, ciB);
   int clsiO = (x.clsO + x.rot) % 3;
   MP O = mkOut(x.clsO, x.pre, A.ref.r, A.ref.c), iO = mkOut(clsiO, x.pre, A.ref.r, A.ref.c);
-  x.more = std::string("iA=") + CN[iA.cls] + " reports " + str(iA.ref.r) + "x" + str(iA.ref.c) + " iB=" + CN[iB.cls] + " reports " + str(iB.ref.r) + "x" + str(iB.ref.c) + " iO=" + CN[clsiO];
+  x.moreFn = [&]() -> std::string { return std::string("iA=") + CN[iA.cls] + " reports " + str(iA.ref.r) + "x" + str(iA.ref.c) + " iB=" + CN[iB.cls] + " reports " + str(iB.ref.r) + "x" + str(iB.ref.c) + " iO=" + CN[clsiO]; };
   bool imagOK = sameShape(A.ref, iA.ref) && sameShape(B.ref, iB.ref), realOK = sameShape(A.ref, B.ref);
   x.site(imagOK ? op : "hadamardMult(A,iA,B,iB,O,iO)[imaginary part of different shape]");
   Res r = call([&] { MatrixTools::hadamardMult(*A.m, *iA.m, *B.m, *iB.m, *O, *iO); });
-  std::string d = x.desc(&A, &B);
+  auto d = [&] { return x.desc(&A, &B); };
   if (!x.judge(op, realOK && imagOK, r, d, realOK ? "nonconformable-imaginary-part-accepted" : "nonconformable-accepted")) return;
   CM a{A.ref, iA.ref}, b{B.ref, iB.ref}; CM w = chad(a, b);
   x.cmp(op, "", *O, w.re, x.clsO, d); x.cmp(op, "-imaginary", *iO, w.im, clsiO, d);
@@ -419,11 +428,11 @@ static void op_hadV(Ctx& x) {
   bool row = x.extra % 2; int off = x.extra / 2;
   Opd A = x.opd(0, x.clsA, x.rA, x.cA);
   size_t n = row ? A.ref.r : A.ref.c;
-  std::vector<double> V; RV rV = x.vec(0, offLen(n, off), V); x.more = std::string("row=") + (row ? "true" : "false") + " |v|=" + str(V.size());
+  std::vector<double> V; RV rV = x.vec(0, offLen(n, off), V); x.moreFn = [&]() -> std::string { return std::string("row=") + (row ? "true" : "false") + " |v|=" + str(V.size()); };
   MP O = mkOut(x.clsO, x.pre, A.ref.r, A.ref.c);
   x.site(op);
   Res r = call([&] { if (row) MatrixTools::hadamardMult(*A.m, V, *O); else MatrixTools::hadamardMult(*A.m, V, *O, false); });
-  std::string d = x.desc(&A);
+  auto d = [&] { return x.desc(&A); };
   if (!x.judge(op, V.size() == n, r, d)) return;
   RM W(A.ref.r, A.ref.c); for (size_t i = 0; i < W.r; ++i) for (size_t j = 0; j < W.c; ++j) W(i, j) = A.ref(i, j) * rV[row ? i : j];
   x.cmp(op, "", *O, W, x.clsO, d);
@@ -434,7 +443,7 @@ static void op_dsum(Ctx& x) {
   MP O = mkOut(x.clsO, x.pre, A.ref.r + B.ref.r, A.ref.c + B.ref.c);
   x.site(op);
   Res r = call([&] { MatrixTools::directSum(*A.m, *B.m, *O); });
-  std::string d = x.desc(&A, &B);
+  auto d = [&] { return x.desc(&A, &B); };
   if (x.judge(op, true, r, d)) x.cmp(op, "", *O, rdsum({&A.ref, &B.ref}), x.clsO, d);
 }
 static void op_covar(Ctx& x) {
@@ -445,10 +454,10 @@ static void op_covar(Ctx& x) {
   MP O = mkOut(x.clsO, x.pre, rr, rr);
   x.site(op);
   Res r = call([&] { MatrixTools::covar(*A.m, *O); });
-  std::string d = x.desc(&A);
+  auto d = [&] { return x.desc(&A); };
   if (!x.judge(op, true, r, d)) return;
   size_t er = rr, ec = rr; rep(x.clsO, er, ec);
-  if (O->getNumberOfRows() != er || O->getNumberOfColumns() != ec) { x.c.fail(std::string(op) + "|dims", d + ": output reports " + str(O->getNumberOfRows()) + "x" + str(O->getNumberOfColumns())); return; }
+  if (O->getNumberOfRows() != er || O->getNumberOfColumns() != ec) { x.c.fail(std::string(op) + "|dims", d() + ": output reports " + str(O->getNumberOfRows()) + "x" + str(O->getNumberOfColumns())); return; }
   // population covariance C_ij = S_ij/n - (s_i/n)(s_j/n), S = A A^T, s = row sums: exact rational (n S_ij - s_i s_j)/n^2.
   // The code evaluates fl(fl(S_ij*fl(1/n)) - fl(fl(s_i/n)*fl(s_j/n))): at most 2 roundings on the first term, 3 on the second, 1 on the
   // difference => |error| <= 4u(|S_ij|/n + |s_i s_j|/n^2)(1+O(u)), u = 2^-53; we allow 8u of that sum. Exact when n is a power of two.
@@ -459,34 +468,35 @@ static void op_covar(Ctx& x) {
     double want = num.d() / ((double)n * (double)n), g = (*O)(i, j);
     double mag = std::fabs(S(i, j).d()) / (double)n + std::fabs((s[i] * s[j]).d()) / ((double)n * (double)n);
     double tol = pow2 ? 0.0 : 8.0 * std::ldexp(1.0, -53) * mag;
-    if (!(std::fabs(g - want) <= tol)) { x.c.fail(std::string(op) + "|value", d + ": entry (" + str(i) + "," + str(j) + ") is " + vf::num(g) + ", definition gives " + vf::num(want) + " (allowed " + vf::num(tol) + ")"); return; }
+    if (!(std::fabs(g - want) <= tol)) { x.c.fail(std::string(op) + "|value", d() + ": entry (" + str(i) + "," + str(j) + ") is " + vf::num(g) + ", definition gives " + vf::num(want) + " (allowed " + vf::num(tol) + ")"); return; }
   }
   if (er) x.c.nontrivial();
 }
 static void op_extrema(Ctx& x) {   // whichMax, whichMin, max, min
   Opd A = x.opd(0, x.clsA, x.rA, x.cA);
   size_t cells = A.ref.r * A.ref.c;
+  size_t k = 0;
   if (x.extra > 0) {   // plant a peak at cell k-1 and a trough at the mirrored cell
-    size_t k = (size_t)x.extra - 1; if (k >= cells) { x.c.tag("variant-does-not-exist"); return; }
+    k = (size_t)x.extra - 1; if (k >= cells) { x.c.tag("variant-does-not-exist"); return; }
     A.ref.a[k] = Dy(1000); (*A.m)(k / A.ref.c, k % A.ref.c) = 1000.0;
     size_t t = cells - 1 - k; if (t != k) { A.ref.a[t] = Dy(-1000); (*A.m)(t / A.ref.c, t % A.ref.c) = -1000.0; }
-    x.more = "peak at cell " + str(k);
+    x.moreFn = [&]() -> std::string { return "peak at cell " + str(k); };
   }
-  std::string d = x.desc(&A);
+  auto d = [&] { return x.desc(&A); };
   std::vector<size_t> pM, pm; double vM = 0, vm = 0;
   x.site("whichMax(A)"); Res r1 = call([&] { with1(*A.m, [&](auto& a) { pM = MatrixTools::whichMax(a); }); });
   x.site("whichMin(A)"); Res r2 = call([&] { with1(*A.m, [&](auto& a) { pm = MatrixTools::whichMin(a); }); });
   x.site("max(A)"); Res r3 = call([&] { vM = MatrixTools::max(*A.m); });
   x.site("min(A)"); Res r4 = call([&] { vm = MatrixTools::min(*A.m); });
-  if (r1 == ASSERTFAIL || r2 == ASSERTFAIL || r3 == ASSERTFAIL || r4 == ASSERTFAIL) { x.siteName = "whichMax+whichMin+max+min"; x.crashed(d); return; }
-  if (r1 != OK_ || r2 != OK_ || r3 != OK_ || r4 != OK_) { x.c.fail("extrema|foreign-exception", d); return; }
+  if (r1 == ASSERTFAIL || r2 == ASSERTFAIL || r3 == ASSERTFAIL || r4 == ASSERTFAIL) { x.siteName = "whichMax+whichMin+max+min"; x.crashed(d()); return; }
+  if (r1 != OK_ || r2 != OK_ || r3 != OK_ || r4 != OK_) { x.c.fail("extrema|foreign-exception", d()); return; }
   if (cells == 0) { x.c.tag("not-judged:extremum-of-empty-matrix"); return; }
   x.c.tag("computed");
   Dy M = A.ref.a[0], m = A.ref.a[0]; for (auto& e : A.ref.a) { if (M < e) M = e; if (e < m) m = e; }
-  if (pM.size() != 2 || pM[0] >= A.ref.r || pM[1] >= A.ref.c || !(A.ref(pM[0], pM[1]) == M)) x.c.fail("whichMax(A)|value", d + ": returned " + vf::vstr(pM) + ", maximum is " + dstr(M));
-  if (pm.size() != 2 || pm[0] >= A.ref.r || pm[1] >= A.ref.c || !(A.ref(pm[0], pm[1]) == m)) x.c.fail("whichMin(A)|value", d + ": returned " + vf::vstr(pm) + ", minimum is " + dstr(m));
-  if (!(vM == M.d())) x.c.fail("max(A)|value", d + ": returned " + vf::num(vM) + ", maximum is " + dstr(M));
-  if (!(vm == m.d())) x.c.fail("min(A)|value", d + ": returned " + vf::num(vm) + ", minimum is " + dstr(m));
+  if (pM.size() != 2 || pM[0] >= A.ref.r || pM[1] >= A.ref.c || !(A.ref(pM[0], pM[1]) == M)) x.c.fail("whichMax(A)|value", d() + ": returned " + vf::vstr(pM) + ", maximum is " + dstr(M));
+  if (pm.size() != 2 || pm[0] >= A.ref.r || pm[1] >= A.ref.c || !(A.ref(pm[0], pm[1]) == m)) x.c.fail("whichMin(A)|value", d() + ": returned " + vf::vstr(pm) + ", minimum is " + dstr(m));
+  if (!(vM == M.d())) x.c.fail("max(A)|value", d() + ": returned " + vf::num(vM) + ", maximum is " + dstr(M));
+  if (!(vm == m.d())) x.c.fail("min(A)|value", d() + ": returned " + vf::num(vm) + ", minimum is " + dstr(m));
   x.c.nontrivial();
 }
 static void op_sum(Ctx& x) {
@@ -494,30 +504,31 @@ static void op_sum(Ctx& x) {
   Opd A = x.opd(0, x.clsA, x.rA, x.cA);
   double g = 0; x.site(op);
   Res r = call([&] { g = MatrixTools::sumElements(*A.m); });
-  std::string d = x.desc(&A);
+  auto d = [&] { return x.desc(&A); };
   if (!x.judge(op, true, r, d)) return;
   Dy s; for (auto& e : A.ref.a) s = s + e;
-  if (!(g == s.d())) x.c.fail(std::string(op) + "|value", d + ": returned " + vf::num(g) + ", definition gives " + dstr(s));
+  if (!(g == s.d())) x.c.fail(std::string(op) + "|value", d() + ": returned " + vf::num(g) + ", definition gives " + dstr(s));
   if (!A.ref.a.empty()) x.c.nontrivial();
 }
 static void op_isSym(Ctx& x) {
   const char* op = "isSymmetric(A)";
-  Opd A = x.opd(0, x.clsA, x.rA, x.cA);
+  Opd A = x.opd(0, x.clsA, x.rA, x.cA); size_t pi = 0, pj = 0;
   if (!x.tiny && A.ref.r == A.ref.c) {   // symmetric base, optionally one upper-triangle cell perturbed
     size_t n = A.ref.r;
     for (size_t i = 0; i < n; ++i) for (size_t j = 0; j < n; ++j) { Dy v = patEntry(0, x.pat, std::min(i, j), std::max(i, j)); A.ref(i, j) = v; (*A.m)(i, j) = v.d(); }
     if (x.extra > 0) {
       size_t k = (size_t)x.extra - 1, cnt = 0; bool done = false;
-      for (size_t i = 0; i < n && !done; ++i) for (size_t j = i + 1; j < n && !done; ++j) if (cnt++ == k) { A.ref(i, j) = A.ref(i, j) + Dy(1); (*A.m)(i, j) = A.ref(i, j).d(); done = true; x.more = "asymmetry at (" + str(i) + "," + str(j) + ")"; }
+      for (size_t i = 0; i < n && !done; ++i) for (size_t j = i + 1; j < n && !done; ++j) if (cnt++ == k) { A.ref(i, j) = A.ref(i, j) + Dy(1); (*A.m)(i, j) = A.ref(i, j).d(); done = true; pi = i; pj = j; }
+      x.moreFn = [&]() -> std::string { return "asymmetry at (" + str(pi) + "," + str(pj) + ")"; };
       if (!done) { x.c.tag("variant-does-not-exist"); return; }
     }
   } else if (!x.tiny && x.extra > 0) { x.c.tag("variant-does-not-exist"); return; }
   bool g = false; x.site(op);
   Res r = call([&] { with1(*A.m, [&](auto& a) { g = MatrixTools::isSymmetric(a); }); });
-  std::string d = x.desc(&A);
+  auto d = [&] { return x.desc(&A); };
   if (!x.judge(op, true, r, d)) return;
   bool w = A.ref.r == A.ref.c; for (size_t i = 0; w && i < A.ref.r; ++i) for (size_t j = 0; j < A.ref.c; ++j) if (!(A.ref(i, j) == A.ref(j, i))) w = false;
-  if (g != w) x.c.fail(std::string(op) + "|value", d + ": returned " + str(g) + ", definition gives " + str(w));
+  if (g != w) x.c.fail(std::string(op) + "|value", d() + ": returned " + str(g) + ", definition gives " + str(w));
   x.c.tag(w ? "symmetric" : "not-symmetric");
   if (A.ref.r > 1 && A.ref.r == A.ref.c) x.c.nontrivial();
 }
@@ -526,15 +537,41 @@ static void op_isSym(Ctx& x) {
 // space builders
 // ======================================================================================================================
 struct OpDef {
-  const char* name; OpFn fn; bool usesA, usesB; int nClsA, nClsB, nClsO, nRot, nPre, nPat, nExtra; bool tiny;
+  const char* name; OpFn fn; bool usesA, usesB; int nClsA, nClsB, nClsO, nRot, nPre, nPat, nExtra; int tinyExtra; /* 0: no tiny space */
 };
-static void latticeSpace(vf::Runner& R, const OpDef& o, int N) {
-  int s = N + 1;
-  std::vector<int> radix = {o.nClsA, o.nClsB, o.nClsO, o.nRot, o.nPre, o.nPat, o.nExtra, o.usesB ? s : 1, o.usesB ? s : 1, o.usesA ? s : 1, o.usesA ? s : 1};
-  OpFn fn = o.fn;
-  R.space(std::string(o.name) + ":shapes<=" + str(N), vf::product(radix), [=](uint64_t idx, vf::Case& c) {
-    std::vector<int> d = vf::digits(idx, radix);
-    Ctx x(c); x.clsA = d[0]; x.clsB = d[1]; x.clsO = d[2]; x.rot = d[3]; x.pre = d[4]; x.pat = d[5]; x.extra = d[6]; x.cB = d[7]; x.rB = d[8]; x.cA = d[9]; x.rA = d[10];
+// Lattice spaces. When the full product (classes x rot x pre-state x pattern x parameter x shapes) is small it is one space ":full".
+// Otherwise it is split into two complete products over ALL shape pairs:
+//   ":cube"     every storage-class combination (x rot) x pre-state in {unsized, too large} (thorough: all four) x pattern 0, parameter 0
+//   ":variants" every pre-state x pattern x parameter, with the three mixed storage assignments (A,B,O) = (s,s+1,s+2) mod 3, rot 1
+static void latticeSpace(vf::Runner& R, const OpDef& o, int N, bool th) {
+  int s = N + 1; OpFn fn = o.fn;
+  std::vector<int> shapes = {o.usesB ? s : 1, o.usesB ? s : 1, o.usesA ? s : 1, o.usesA ? s : 1};
+  std::vector<int> full = {o.nClsA, o.nClsB, o.nClsO, o.nRot, o.nPre, o.nPat, o.nExtra}; full.insert(full.end(), shapes.begin(), shapes.end());
+  if (vf::product(full) <= 150000) {
+    R.space(std::string(o.name) + ":full:shapes<=" + str(N), vf::product(full), [=](uint64_t idx, vf::Case& c) {
+      std::vector<int> d = vf::digits(idx, full);
+      Ctx x(c); x.clsA = d[0]; x.clsB = d[1]; x.clsO = d[2]; x.rot = d[3]; x.pre = d[4]; x.pat = d[5]; x.extra = d[6]; x.cB = d[7]; x.rB = d[8]; x.cA = d[9]; x.rA = d[10];
+      x.wantSample = (idx % 20011 == 10007);
+      fn(x);
+    }, 5.0);
+    return;
+  }
+  std::vector<int> preV = th ? std::vector<int>{0, 1, 2, 3} : std::vector<int>{0, 2}, patV = std::vector<int>{0};
+  if (o.nPre == 1) preV = {0};
+  if (o.nPat == 1) patV = {0};
+  std::vector<int> cube = {o.nClsA, o.nClsB, o.nClsO, o.nRot, (int)preV.size(), (int)patV.size()}; cube.insert(cube.end(), shapes.begin(), shapes.end());
+  R.space(std::string(o.name) + ":cube:pre" + str(preV.size()) + ":pat" + str(patV.size()) + ":shapes<=" + str(N), vf::product(cube), [=](uint64_t idx, vf::Case& c) {
+    std::vector<int> d = vf::digits(idx, cube);
+    Ctx x(c); x.clsA = d[0]; x.clsB = d[1]; x.clsO = d[2]; x.rot = d[3]; x.pre = preV[(size_t)d[4]]; x.pat = patV[(size_t)d[5]]; x.extra = 0; x.cB = d[6]; x.rB = d[7]; x.cA = d[8]; x.rA = d[9];
+    x.wantSample = (idx % 60013 == 30011);
+    fn(x);
+  }, 5.0);
+  std::vector<int> var = {3, o.nPre, o.nPat, o.nExtra}; var.insert(var.end(), shapes.begin(), shapes.end());
+  bool oIsA = (o.nClsO == 1); int rot = o.nRot > 1 ? 1 : 0;
+  R.space(std::string(o.name) + ":variants:shapes<=" + str(N), vf::product(var), [=](uint64_t idx, vf::Case& c) {
+    std::vector<int> d = vf::digits(idx, var);
+    Ctx x(c); x.clsA = d[0]; x.clsB = (d[0] + 1) % 3; x.clsO = oIsA ? d[0] : (d[0] + 2) % 3; x.rot = rot; x.pre = d[1]; x.pat = d[2]; x.extra = d[3]; x.cB = d[4]; x.rB = d[5]; x.cA = d[6]; x.rA = d[7];
+    x.wantSample = (idx % 60013 == 30011);
     fn(x);
   }, 5.0);
 }
@@ -550,12 +587,12 @@ static std::vector<TinyCell> tinyCells(bool usesB, uint64_t& total) {
 }
 static void tinySpace(vf::Runner& R, const OpDef& o) {
   uint64_t total = 0; std::vector<TinyCell> cells = tinyCells(o.usesB, total);
-  OpFn fn = o.fn; int nExtra = o.nExtra; bool sameCls = (o.nClsO == 1 && o.nClsB == 1);
+  OpFn fn = o.fn; int nExtra = o.tinyExtra; int rot = o.nRot > 1 ? 1 : 0; bool sameCls = (o.nClsO == 1 && o.nClsB == 1);
   R.space(std::string(o.name) + ":entries{-1,0,2}:shapes<=2", total * 3 * (uint64_t)nExtra, [=](uint64_t idx, vf::Case& c) {
     int st = (int)(idx % 3); idx /= 3; int extra = (int)(idx % (uint64_t)nExtra); idx /= (uint64_t)nExtra;
     size_t k = 0; while (k + 1 < cells.size() && cells[k + 1].first <= idx) ++k;
     const TinyCell& t = cells[k]; uint64_t e = idx - t.first;
-    Ctx x(c); x.tiny = true; x.rA = t.rA; x.cA = t.cA; x.rB = t.rB; x.cB = t.cB; x.extra = extra; x.pre = 2; x.pat = 0;
+    Ctx x(c); x.tiny = true; x.rA = t.rA; x.cA = t.cA; x.rB = t.rB; x.cB = t.cB; x.extra = extra; x.pre = 2; x.pat = 0; x.rot = rot;
     x.clsA = st; x.clsB = (st + 1) % 3; x.clsO = sameCls ? st : (st + 2) % 3;
     x.entA.resize((size_t)(t.rA * t.cA)); x.entB.resize((size_t)(t.rB * t.cB));
     for (auto& q : x.entA) { q = (int)(e % 3); e /= 3; } for (auto& q : x.entB) { q = (int)(e % 3); e /= 3; }
@@ -563,23 +600,24 @@ static void tinySpace(vf::Runner& R, const OpDef& o) {
   }, 5.0);
 }
 
-// directSum of a list of up to three matrices
-static void dsumListSpace(vf::Runner& R, int N) {
-  uint64_t S = (uint64_t)(N + 1) * (uint64_t)(N + 1), lists = 1 + S + S * S + S * S * S;
-  R.space("directSum(list,O):lists<=3:shapes<=" + str(N), lists * 108, [=](uint64_t idx, vf::Case& c) {
+// directSum of a list of up to three matrices: lists of length <= 2 over all shapes 0..N, lists of length 3 over shapes 0..N3
+static void dsumListSpace(vf::Runner& R, int N, int N3) {
+  uint64_t S = (uint64_t)(N + 1) * (uint64_t)(N + 1), S3 = (uint64_t)(N3 + 1) * (uint64_t)(N3 + 1), lists = 1 + S + S * S + S3 * S3 * S3;
+  R.space("directSum(list,O):len<=2:shapes<=" + str(N) + ":len3:shapes<=" + str(N3), lists * 108, [=](uint64_t idx, vf::Case& c) {
     std::vector<int> d = vf::digits(idx % 108, {3, 3, 3, 2, 2}); uint64_t l = idx / 108;
     int c0 = d[0], rot = d[1]; Ctx x(c); x.clsO = d[2]; x.pre = d[3] ? 2 : 0; x.pat = d[4] ? 3 : 0;
-    int len = 0; if (l >= 1) { l -= 1; len = 1; if (l >= S) { l -= S; len = 2; if (l >= S * S) { l -= S * S; len = 3; } } }
+    int len = 0; uint64_t base = S; int side = N + 1;
+    if (l >= 1) { l -= 1; len = 1; if (l >= S) { l -= S; len = 2; if (l >= S * S) { l -= S * S; len = 3; base = S3; side = N3 + 1; } } }
     std::vector<Opd> ops; std::string ds = "list:";
-    for (int k = 0; k < len; ++k) { uint64_t sh = l % S; l /= S; int r = (int)(sh / (uint64_t)(N + 1)), cc = (int)(sh % (uint64_t)(N + 1));
+    for (int k = 0; k < len; ++k) { uint64_t sh = l % base; l /= base; int r = (int)(sh / (uint64_t)side), cc = (int)(sh % (uint64_t)side);
       ops.push_back(x.opd(k, (c0 + k * rot) % 3, (size_t)r, (size_t)cc));
-      ds += std::string(" ") + CN[ops.back().cls] + " " + str(r) + "x" + str(cc) + "(reports " + str(ops.back().ref.r) + "x" + str(ops.back().ref.c) + ")"; }
+      ds += std::string(" ") + CN[ops.back().cls] + " " + str(r) + "x" + str(cc) + "(reports " + str(ops.back().ref.r) + "x" + str(ops.back().ref.c) + ")" + Ctx::mstr(ops.back().ref); }
     std::vector<MD*> vA; std::vector<const RM*> vR; for (auto& o : ops) { vA.push_back(o.m.get()); vR.push_back(&o.ref); }
-    RM W = rdsum(vR); MP O = mkOut(x.clsO, x.pre, W.r, W.c); x.more = ds;
+    RM W = rdsum(vR); MP O = mkOut(x.clsO, x.pre, W.r, W.c); x.moreFn = [&]() -> std::string { return ds; };
     const char* op = "directSum(list,O)";
     x.site(op);
     Res r = call([&] { MatrixTools::directSum(vA, *O); });
-    std::string dd = x.desc();
+    auto dd = [&] { return x.desc(); };
     if (x.judge(op, true, r, dd)) x.cmp(op, "", *O, W, x.clsO, dd);
   }, 5.0);
 }
@@ -587,7 +625,7 @@ static void dsumListSpace(vf::Runner& R, int N) {
 // ======================================================================================================================
 // linear assignment
 // ======================================================================================================================
-static void lapCase(vf::Case& c, int cls, size_t n, const std::vector<Dy>& cost, const std::string& what) {
+static void lapCase(vf::Case& c, int cls, size_t n, const std::vector<Dy>& cost, const std::string& what, bool wantSample = false) {
   MP C = mk(cls, n, n);
   for (size_t i = 0; i < n; ++i) for (size_t j = 0; j < n; ++j) (*C)(i, j) = cost[i * n + j].d();
   std::vector<int> rowSol(n, -7), colSol(n, -7); std::vector<double> u(n, -7777.0), v(n, -7777.0);
@@ -620,6 +658,7 @@ static void lapCase(vf::Case& c, int cls, size_t n, const std::vector<Dy>& cost,
   }
   if (!(su == tot.d())) { c.fail("lap|dual-objective-differs-from-cost", d()); return; }
   if (n >= 2) c.nontrivial();
+  if (wantSample) c.sample("lap: " + d() + " = brute-force minimum, duals certify");
 }
 static const Dy LAPA[2][4] = {{Dy(0), Dy(1), Dy(2), Dy(3)}, {Dy(-3, 1), Dy(1, 2), Dy(3), Dy(5)}};
 // all n x n matrices, n in nLo..nHi, over the first q letters of alphabet al, in each storage class
@@ -627,12 +666,12 @@ static void lapAllSpace(vf::Runner& R, const std::string& name, int nLo, int nHi
   std::vector<uint64_t> first; uint64_t total = 0;
   for (int n = nLo; n <= nHi; ++n) { first.push_back(total); uint64_t k = 1; for (int e = 0; e < n * n; ++e) k *= (uint64_t)q; total += k; }
   R.space(name, total * 3, [=](uint64_t idx, vf::Case& c) {
+    bool smp = (idx % 20011 == 10007);
     int cls = (int)(idx % 3); idx /= 3;
     size_t k = 0; while (k + 1 < first.size() && first[k + 1] <= idx) ++k;
     size_t n = (size_t)nLo + k; uint64_t e = idx - first[k];
     std::vector<Dy> cost(n * n); for (auto& x : cost) { x = LAPA[al][e % (uint64_t)q]; e /= (uint64_t)q; }
-    lapCase(c, cls, n, cost, "n=" + str(n));
-    if (idx % 7919 == 11) c.sample(name + " case " + str(idx) + " executed");
+    lapCase(c, cls, n, cost, "n=" + str(n), smp);
   }, timeout);
 }
 // structured families for larger n
@@ -676,42 +715,38 @@ int main(int argc, char** argv) {
   bool th = R.thorough();
   int N = th ? 7 : 5;
   int cells = (N + 1) * (N + 1), pairs = N * (N + 1) / 2;
-  //                 name                              fn           A      B      cA cB cO rot pre pat extra        tiny
+  //                 name                              fn           A      B      cA cB cO rot pre pat extra        tinyExtra
   std::vector<OpDef> ops = {
-    {"copy(A,O)",                         op_copy,     true,  false, 3, 1, 3, 1, 4, 4, 1,           true},
-    {"getId(n,O)",                        op_getId,    false, false, 1, 1, 3, 1, 4, 1, N + 1,       false},
-    {"diag(D,O)+diag(x,n,O)",             op_diagVec,  false, false, 1, 1, 3, 1, 4, 4, 2 * (N + 1), false},
-    {"diag(M,v)",                         op_diagOf,   true,  false, 3, 1, 1, 1, 2, 4, 1,           true},
-    {"scale(A,a,b)",                      op_scale,    true,  false, 3, 1, 1, 1, 1, 4, 5,           true},
-    {"mult(A,B,O)",                       op_mult,     true,  true,  3, 3, 3, 1, 4, 4, 1,           true},
-    {"mult(A,iA,B,iB,O,iO)",              op_multC,    true,  true,  3, 3, 3, 3, 4, 2, 6,           true},
-    {"mult(A,D,B,O)",                     op_multD,    true,  true,  3, 3, 3, 1, 4, 4, 3,           true},
-    {"mult(A,iA,D,iD,B,iB,O,iO)",         op_multCD,   true,  true,  3, 3, 3, 3, 4, 2, 6,           true},
-    {"mult(A,D,U,L,B,O)",                 op_multT,    true,  true,  3, 3, 3, 1, 4, 2, 9,           true},
-    {"add(A,B)",                          op_add,      true,  true,  3, 3, 1, 1, 1, 4, 1,           true},
-    {"add(A,x,B)",                        op_addx,     true,  true,  3, 3, 1, 1, 1, 4, 3,           true},
-    {"transpose(A,O)",                    op_transpose, true, false, 3, 1, 3, 1, 4, 4, 1,           true},
-    {"pow(A,p,O)",                        op_pow,      true,  false, 3, 1, 1, 1, 4, 4, 7,           true},
-    {"Taylor(A,p,vO)",                    op_taylor,   true,  false, 3, 1, 1, 1, 3, 4, 5,           true},
-    {"kroneckerMult(A,B,O)",              op_kron,     true,  true,  3, 3, 3, 1, 5, 2, 1,           true},
-    {"kroneckerMult(A,dim,v,O)",          op_kronDiag, true,  false, 3, 1, 3, 1, 5, 4, 8,           true},
-    {"kroneckerMult(A,B,dA,dB,O)",        op_kronRepl, true,  true,  3, 3, 3, 1, 5, 2, 2,           true},
-    {"hadamardMult(A,B,O)",               op_had,      true,  true,  3, 3, 3, 1, 4, 4, 1,           true},
-    {"hadamardMult(A,iA,B,iB,O,iO)",      op_hadC,     true,  true,  3, 3, 3, 3, 4, 2, 6,           true},
-    {"hadamardMult(A,v,O,row)",           op_hadV,     true,  false, 3, 1, 3, 1, 4, 4, 6,           true},
-    {"directSum(A,B,O)",                  op_dsum,     true,  true,  3, 3, 3, 1, 4, 4, 1,           true},
-    {"covar(A,O)",                        op_covar,    true,  false, 3, 1, 3, 1, 4, 4, 1,           true},
-    {"whichMax+whichMin+max+min",         op_extrema,  true,  false, 3, 1, 1, 1, 1, 4, cells + 1,   true},
-    {"sumElements(A)",                    op_sum,      true,  false, 3, 1, 1, 1, 1, 4, 1,           true},
-    {"isSymmetric(A)",                    op_isSym,    true,  false, 3, 1, 1, 1, 1, 4, pairs + 1,   true},
+    {"copy(A,O)",                         op_copy,     true,  false, 3, 1, 3, 1, 4, 4, 1,           1},
+    {"getId(n,O)",                        op_getId,    false, false, 1, 1, 3, 1, 4, 1, N + 1,       0},
+    {"diag(D,O)+diag(x,n,O)",             op_diagVec,  false, false, 1, 1, 3, 1, 4, 4, 2 * (N + 1), 0},
+    {"diag(M,v)",                         op_diagOf,   true,  false, 3, 1, 1, 1, 2, 4, 1,           1},
+    {"scale(A,a,b)",                      op_scale,    true,  false, 3, 1, 1, 1, 1, 4, 5,           5},
+    {"mult(A,B,O)",                       op_mult,     true,  true,  3, 3, 3, 1, 4, 4, 1,           1},
+    {"mult(A,iA,B,iB,O,iO)",              op_multC,    true,  true,  3, 3, 3, 3, 4, 2, 6,           1},
+    {"mult(A,D,B,O)",                     op_multD,    true,  true,  3, 3, 3, 1, 4, 4, 3,           1},
+    {"mult(A,iA,D,iD,B,iB,O,iO)",         op_multCD,   true,  true,  3, 3, 3, 3, 4, 2, 6,           1},
+    {"mult(A,D,U,L,B,O)",                 op_multT,    true,  true,  3, 3, 3, 1, 4, 2, 9,           1},
+    {"add(A,B)",                          op_add,      true,  true,  3, 3, 1, 1, 1, 4, 1,           1},
+    {"add(A,x,B)",                        op_addx,     true,  true,  3, 3, 1, 1, 1, 4, 3,           3},
+    {"transpose(A,O)",                    op_transpose, true, false, 3, 1, 3, 1, 4, 4, 1,           1},
+    {"pow(A,p,O)",                        op_pow,      true,  false, 3, 1, 1, 1, 4, 4, 7,           7},
+    {"Taylor(A,p,vO)",                    op_taylor,   true,  false, 3, 1, 1, 1, 3, 4, 5,           5},
+    {"kroneckerMult(A,B,O)",              op_kron,     true,  true,  3, 3, 3, 1, 5, 2, 1,           1},
+    {"kroneckerMult(A,dim,v,O)",          op_kronDiag, true,  false, 3, 1, 3, 1, 5, 4, 8,           8},
+    {"kroneckerMult(A,B,dA,dB,O)",        op_kronRepl, true,  true,  3, 3, 3, 1, 5, 2, 2,           2},
+    {"hadamardMult(A,B,O)",               op_had,      true,  true,  3, 3, 3, 1, 4, 4, 1,           1},
+    {"hadamardMult(A,iA,B,iB,O,iO)",      op_hadC,     true,  true,  3, 3, 3, 3, 4, 2, 6,           1},
+    {"hadamardMult(A,v,O,row)",           op_hadV,     true,  false, 3, 1, 3, 1, 4, 4, 6,           6},
+    {"directSum(A,B,O)",                  op_dsum,     true,  true,  3, 3, 3, 1, 4, 4, 1,           1},
+    {"covar(A,O)",                        op_covar,    true,  false, 3, 1, 3, 1, 4, 4, 1,           1},
+    {"whichMax+whichMin+max+min",         op_extrema,  true,  false, 3, 1, 1, 1, 1, 4, cells + 1,   1},
+    {"sumElements(A)",                    op_sum,      true,  false, 3, 1, 1, 1, 1, 4, 1,           1},
+    {"isSymmetric(A)",                    op_isSym,    true,  false, 3, 1, 1, 1, 1, 4, pairs + 1,   1},
   };
-  for (auto& o : ops) latticeSpace(R, o, N);
-  dsumListSpace(R, N);
-  for (auto& o : ops) if (o.tiny) {
-    OpDef t = o;
-    if (t.fn == op_extrema || t.fn == op_isSym) t.nExtra = 1;   // the planted-cell variants belong to the lattice spaces
-    tinySpace(R, t);
-  }
+  for (auto& o : ops) latticeSpace(R, o, N, th);
+  dsumListSpace(R, N, th ? 4 : 3);
+  for (auto& o : ops) if (o.tinyExtra) tinySpace(R, o);
   // linear assignment: per-case alarm (the solver has data-dependent loops)
   lapAllSpace(R, "lap:all:n0..3:{0,1,2}", 0, 3, 3, 0, 1.0);
   lapAllSpace(R, "lap:all:n0..3:{-3/2,1/4,3}", 0, 3, 3, 1, 1.0);
